@@ -68,7 +68,8 @@ def run(ctx):
                     "go-quartz timer accuracy: live oracles only use lower bounds and counts"]
     ctx.assumptions += ["clock readings never go back; delays and intervals are not negative",
                         "cluster claim: every node derives the same TTL for a tick, and every put happens at or after the tick's run time and before run time + TTL (guard of creach; refuted without it)",
-                        "at most one delivery after CancelSchedule holds when a job function completes before the next firing of the same job"]
+                        "at most one delivery after CancelSchedule holds when a job function completes before the next firing of the same job",
+                        "every scheduler operation is one atomic step of the model (the code holds scheduler.mu); the concurrent cancel/schedule rounds test that on the real code"]
     rng = ctx.rng
     work = ctx.work
     n_book = 120 if ctx.thorough else 40
@@ -88,12 +89,14 @@ def run(ctx):
     for i in range(60 if ctx.thorough else 24):
         nodes = rng.randint(2, 5)
         ops = [{"Node": rng.randrange(nodes), "Ref": rng.randrange(2), "RunSec": rng.choice([-200, -90, -30, -30, -10, -10, 0, 0, 20])} for _ in range(rng.randint(6, 20))]
-        claims.append({"Id": i, "Nodes": nodes, "TTLs": 60, "Ops": ops})
+        # every node runs in its own process-local time zone: the claim must not depend on it
+        zones = [rng.choice([0, 0, 7200, -18000, 19800, 32400, -12600]) for _ in range(nodes)]
+        claims.append({"Id": i, "Nodes": nodes, "Zones": zones, "TTLs": 60, "Ops": ops})
     for name, data in (("c19_book_in.jsonl", book), ("c19_claim_in.jsonl", claims)):
         with open(os.path.join(work, name), "w") as f:
             for x in data:
                 f.write(json.dumps(x) + "\n")
-    for fn in ("c19_book_out.jsonl", "c19_live_out.jsonl", "c19_claim_out.jsonl", "c19_race_out.jsonl", "c19_cluster_out.jsonl"):
+    for fn in ("c19_book_out.jsonl", "c19_live_out.jsonl", "c19_claim_out.jsonl", "c19_race_out.jsonl", "c19_cluster_out.jsonl", "c19_oprace_out.jsonl"):
         p = os.path.join(work, fn)
         if os.path.exists(p):
             os.remove(p)
@@ -113,6 +116,9 @@ def run(ctx):
     claim_outs = read_jsonl(os.path.join(work, "c19_claim_out.jsonl"))
     race_outs = read_jsonl(os.path.join(work, "c19_race_out.jsonl"))
     cluster_outs = read_jsonl(os.path.join(work, "c19_cluster_out.jsonl"))
+    oprace_outs = read_jsonl(os.path.join(work, "c19_oprace_out.jsonl"))
+    if rc == 0 and not oprace_outs:
+        ctx.tie_broken("go-harness TestVerifC19Race produced no output", out)
     if rc != 0 or len(book_outs) != len(book) or not live_outs or len(claim_outs) != len(claims) or not race_outs:
         ctx.tie_broken("go-harness actor scheduler (TestVerifC19*)", out)
         if len(book_outs) != len(book):
@@ -142,6 +148,7 @@ def run(ctx):
         clock = 10
         ops_c, obs_c = [], []
         known = set()         # references the scheduler knows (scheduled and not cancelled since)
+        live = {}             # reference -> kind of the schedule that is certainly still queued (1 h one-shots and intervals)
         kinds = set()
         for o, st in zip(cs["Ops"], res["Steps"]):
             n_steps += 1
@@ -153,6 +160,24 @@ def run(ctx):
             if o["K"] in ("cancel", "pause", "resume") and r not in known and st["Err"] != "notfound":
                 viol("scheduler:unknown-reference-error", "book case %d: %s of reference %d, which is unknown or cancelled, returned %r instead of the reference-not-found error" % (cs["Id"], o["K"], r, st["Err"]),
                      {"case": cs, "op": o, "step": st})
+            # the statement: a schedule lives until it is cancelled (or, for a one-shot, delivered); while it lives
+            # it can be cancelled and paused, and a refused second registration under its reference changes nothing
+            if o["K"] in ("cancel", "pause") and r in live and st["Err"] == "notfound":
+                viol("scheduler:live-schedule-reported-not-found", "book case %d: %s of reference %d returned the reference-not-found error although its %s schedule was registered successfully and never cancelled (operations so far: %s)" %
+                     (cs["Id"], o["K"], r, live[r], json.dumps(cs["Ops"][:len(ops_c) + 1])), {"case": cs, "op_index": len(ops_c), "step": st})
+            if o["K"] in ("once_long", "every_long") and st["Err"] == "ok":
+                live[r] = o["K"]
+            if o["K"] == "once_short" and st["Err"] == "ok":
+                live.pop(r, None)
+            if o["K"] == "cancel":
+                live.pop(r, None)
+            if o["K"] == "resume" and live.get(r) == "once_long" and st["Err"] == "expired":
+                live.pop(r, None)     # the known pause-then-resume loss of a one-shot
+            missing = [x for x in live if x not in (st["Listed"] or [])]
+            if missing:
+                viol("scheduler:live-schedule-not-listed", "book case %d after %s of reference %d: ListSchedules %s misses live references %s" % (cs["Id"], o["K"], r, st["Listed"], missing),
+                     {"case": cs, "op_index": len(ops_c), "step": st})
+                live = {k: v for k, v in live.items() if k not in missing}
             if o["K"] in ("once_short", "once_long", "every_long"):
                 known.add(r)
             if o["K"] == "cancel":
@@ -293,6 +318,19 @@ def run(ctx):
             viol("ClaimScheduleFire:put-options", "ClaimScheduleFire wrote %s (needs NX, EX = ttl %d ns, the schedule-fire namespace)" % (puts[:2], r["TTLNs"]), r)
 
     ctx.log("oracles done")
+    # ---- (5) concurrent CancelSchedule / Schedule on one reference
+    race_rounds = 0
+    for r in oprace_outs:
+        race_rounds += r["Rounds"]
+        if r["Orphaned"] and (r["CancelAfter"] == "notfound" or r["DeliveredAfter"] > 1):
+            viol("scheduler:concurrent-cancel-and-schedule:uncancellable", "reference %s: CancelSchedule and Schedule issued at the same time (round %d); afterwards CancelSchedule returns %s and %d more messages are delivered in the next 200 ms (interval 10 ms): the schedule is live but can no longer be cancelled" %
+                 (r["Ref"], r["OrphanRound"], r["CancelAfter"], r["DeliveredAfter"]), r)
+        elif r["FinalDelivered"] > 1 or r["FinalJobPresent"]:
+            viol("scheduler:concurrent-cancel-and-schedule:keeps-firing", "reference %s: after %d concurrent cancel/schedule rounds the last CancelSchedule calls returned %s / %s, yet %d messages were delivered afterwards (job still queued: %s)" %
+                 (r["Ref"], r["Rounds"], r["FinalCancel"], r["FinalCancel2"], r["FinalDelivered"], r["FinalJobPresent"]), r)
+        elif r["FinalCancel2"] != "notfound":
+            viol("scheduler:cancelled-reference-error", "reference %s: a second CancelSchedule returned %s" % (r["Ref"], r["FinalCancel2"]), r)
+
     # ---- model vs implementation
     coq_stats = None
     if coq_book or coq_claims:
@@ -365,9 +403,10 @@ Eval vm_compute in summary.
         "rule": "scheduler sequences: 8-28 operations (one-shot 300 ms / one-shot 1 h / interval 1 h / cancel / pause / resume / wait 1200 ms) over 2-4 references on a real system — non-trivial = at least three different error classes observed, distinct by sequence; claims: 6-20 claims by 2-5 nodes over two references and run times from 200 s in the past to 20 s ahead with a 60 s TTL, distinct by sequence",
         "samples": [book[0], book[len(corpus)] if len(book) > len(corpus) else book[0], claims[0]],
         "book_steps": n_steps, "op_histogram": op_hist, "error_class_histogram": err_hist, "live": live_stats,
+        "concurrent_cancel_schedule_rounds": race_rounds,
         "claims": n_claims, "claim_races": len(race_outs), "cluster_claim_races": len(cluster_outs),
         "once_pause_resume_lost": once_lost, "model_vs_implementation": coq_stats,
-        "theorems": ["C19_delivered_as_scheduled", "C19_once_at_most_once", "C19_fires_when_due", "C19_once_exactly_once_refuted", "C19_cancel_stops", "C19_paused_does_not_fire",
+        "theorems": ["C19_delivered_as_scheduled", "C19_once_at_most_once", "C19_fires_when_due", "C19_once_exactly_once_refuted", "C19_cancel_stops", "C19_duplicate_registration_keeps_live", "C19_paused_does_not_fire",
                      "C19_unknown_reference", "C19_cancelled_reference", "C19_cron_claim_unique", "C19_cron_claim_some_winner", "C19_cron_claim_unguarded_refuted", "C19_claim_call_is_check_then_put"],
     })
 
